@@ -9,7 +9,12 @@ on the multi-fit, constraint on the multi-fit or on a member, do_fit} the monito
  (c) MultiFit([f]) reproduces a twin of f fitted alone,
  (d) with shared sources: multi.cost == r^T V^-1 r + ln det V + all declared constraint costs + costs of the
      non-chi2 members, V = reference block matrix with the shared matrix in every block of the sharing members,
- (e) after multi.do_fit() every member reports the sub-blocks of the multi-fit result; linear members: joint GLS.
+ (e) after multi.do_fit() every member reports the sub-blocks of the multi-fit result BY PARAMETER NAME (members whose own signature
+     order is not a subsequence of the combined order are a stratum of their own); linear members: joint GLS,
+ (f) what was declared on the multi-fit before its first shared source (fix / release / limit / unlimit / set) is still in force after
+     it (the fitter is rebuilt there): fixed and limited parameters as declared, fitted values inside the limits, GLS with the fixed ones,
+ (g) a minimisation that fails half way (cost function raises at its k-th evaluation, injected) surfaces as that failure and leaves a state
+     in which (a), (b), (d) hold; the history goes on.
 """
 import json
 
@@ -28,7 +33,9 @@ RULE = (
     "random signature order => overlap patterns none / nested / identical / partial), unequal sizes, own data-referenced sources and own constraints; "
     "0-2 shared sources added through MultiFit.add_error / add_matrix_error (simple / matrix, absolute / data-relative, x / y, all / adjacent / "
     "non-adjacent subset of the chi2 members, refusals for unequal sizes and conflicting references); history (3-8 ops quick, 5-20 thorough) over "
-    "set on multi / set on member / fix / release / constraint on multi / constraint on member / do_fit (+ disable_error on the multi-fit as last op); "
+    "set on multi / set on member / fix / release / limit / unlimit / constraint on multi / constraint on member / do_fit / do_fit failing at its k-th cost evaluation "
+    "(+ disable_error on the multi-fit as last op); 0-6 ops (fix / limit / set / release / unlimit) issued on the multi-fit BEFORE its first shared source; "
+    "'interleaved' cases force a later member whose parameter order is not a subsequence of the combined order (f(x,a,b) next to g(x,c,a)); "
     "all oracles after every op; non-trivial = >= 2 members, or the single-member twin comparison; distinct by case hash"
 )
 ASSUMPTIONS = [
@@ -40,6 +47,10 @@ ASSUMPTIONS = [
     "twin comparison (two minimisations of the same problem, same backend): parameter shifts in units of the twin's sigma, errors / covariance within 5e-2 (HESSE re-run at the identical minimum scatters by 2 %)",
     "bookkeeping (value identity, sub-blocks of the result, mirrored fixed flags) is compared EXACTLY",
     "MultiFit accepts the axis of a shared source only as 'x' / 'y' / None; other spellings are not generated (C14 covers equivalent spellings)",
+    "limits are generated around the value last declared and the model default, half-width |default| * 10^U(-2.5, 0.5) (from active to inactive), one-sided with p = 0.4; "
+    "values set afterwards lie inside them (not next to them: C06's open finding); a limit that excludes the live value (after a fit) is skipped and counted; "
+    "the closed-form GLS reference is used only where every limit is inactive (unlimited optimum >= 2 sigma inside, fit not resting on a limit); limits hold within 1e-12 relative (as C06)",
+    "a point where the reference cost itself overflows the double range (run-away minimisation) has no reference: discarded and counted",
 ]
 ANCHORS = [
     ("kafe2.fit.multi.fit", "MultiFit._init_nexus"),
